@@ -79,6 +79,8 @@ FIXED = [
  ("C12", "axis_rot_from_z aligns z with short vectors too", "rotations.axis_rot_from_z returned a rotation by |v| radians for |v| < 1e-8 (absolute threshold on |z x v|) instead of the rotation aligning z with v"),
  ("C19", "a Bezier curve or patch with a single control point returns a copy of it", "BezierCurve([p]).evaluate(t) / BezierPatch([[p]]).evaluate(u,v) returned the stored control point itself: editing the returned vector in place moved the curve / patch and the caller's array"),
  ("C09", "shortest_path accepts a numpy integer as a single target", "a one-element target collection of numpy integers (or a bare numpy integer) raised TypeError in shortest_path / shortest_path_to_vertex_set while collections of two or more worked"),
+ ("C18", "frame-field attach weight separates zero from non-zero eigenvalues relative to the mesh size", "frame fields with smoothing on closed surfaces with edges below ~1e-5: the absolute 1e-6 threshold on the Laplacian eigenvalues (homogeneous to 1/length^2) took round-off as the attach weight, every smoothing step shrank the field and the frames ended with modulus ~1e-45 instead of 1"),
+ ("C18", "vertex-based frame field on closed surfaces passes the mass matrix as B", "vertex-based frame field on a closed surface without features passed the mass matrix as the shift of inverse_power_method: on large models (unit of length >= 2^16) all frames but one fell under the normalisation threshold (non-unit moduli)"),
  ("C02", "edge attributes survive the removal of invalid edges", "dropping an invalid edge lost the values of dense edge attributes (ValueError for vector ones) and the custom default of sparse ones"),
  ("C02", "cell/face connectivity works when cells are numpy rows", "face_to_cells / cell_to_face / in_cell_face_index raised ValueError on volume meshes whose cells are numpy rows (from_arrays)"),
  ("C16", "singularity cutter reaches every face", "SingularityCutter with a feature detector and >= 1 singularity: faces enclosed by forbidden feature edges were never reached by the dual search and the cut mesh fell apart into several components"),
